@@ -314,3 +314,12 @@ func mustMounts(dir string) []mount.SyscallParams {
 }
 
 func runtimeStack(b []byte) int { return runtime.Stack(b, false) }
+
+// lowestFree2 returns the two lowest descriptor numbers that are free right now (what the next socketpair will get).
+func lowestFree2() (int, int) {
+	a, _ := syscall.Open("/dev/null", syscall.O_RDONLY|syscall.O_CLOEXEC, 0)
+	b, _ := syscall.Open("/dev/null", syscall.O_RDONLY|syscall.O_CLOEXEC, 0)
+	syscall.Close(a)
+	syscall.Close(b)
+	return a, b
+}
